@@ -43,8 +43,15 @@ def check(case, rec):
     rec.nontrivial(_nontrivial(fs))
     rec.label(*S.spec_classes(fs))
     rec.stat('file_bytes', len(data))
+    def stream():
+        if fs.get('short_reads'):
+            from vf.observe import ShortReadStream
+            return ShortReadStream(data, fs['short_reads'])
+        return io.BytesIO(data)
+    if fs.get('short_reads'):
+        rec.label('stream_with_short_readinto')
     for raw_ts in ((True,) if fs.get('raw_only') else (True, False)):
-        ok, tf = rec.guard('read', lambda: TdmsFile.read(io.BytesIO(data), raw_timestamps=raw_ts))
+        ok, tf = rec.guard('read', lambda: TdmsFile.read(stream(), raw_timestamps=raw_ts))
         if not ok:
             return
         for clause, msg in compare_structure(ex, tf, raw_ts=raw_ts):
@@ -66,15 +73,23 @@ def _extreme_ts():
         lambda fs: dict(fs, raw_only=True))
 
 
+@st.composite
+def _short_read_files(draw):
+    fs = draw(S.file_spec(max_segments=4, max_n=12))
+    return dict(fs, short_reads=draw(st.integers(1, 24)))
+
+
 def jobs(tier):
     if tier == 'quick':
         return [
-            Job('files', 'hyp', lambda: S.file_spec(max_segments=6), n=7000),
+            Job('files', 'hyp', lambda: S.file_spec(max_segments=6), n=6000),
+            Job('short_read_streams', 'hyp', _short_read_files, n=1000),
             Job('extreme_ts', 'hyp', _extreme_ts, n=500),
             Job('long_files', 'hyp', _long_file, n=48),
         ]
     return [
         Job('files', 'hyp', lambda: S.file_spec(max_segments=6), n=300000),
+        Job('short_read_streams', 'hyp', _short_read_files, n=30000),
         Job('extreme_ts', 'hyp', _extreme_ts, n=20000),
         Job('big_files', 'hyp', lambda: S.file_spec(max_segments=12, max_n=300, max_chunks=4, str_max=12), n=40000),
         Job('long_files', 'hyp', _long_file, n=2000),
